@@ -57,6 +57,9 @@ type action struct {
 	Base   *expState  `json:"base,omitempty"`
 	New    *expState  `json:"new,omitempty"`
 	Minset []minEntry `json:"minset,omitempty"`
+	// mechanism layer (TrieCommitMech.tla): the exact node set predicted for this history
+	Exact    []minEntry `json:"exact,omitempty"`
+	HasExact bool       `json:"hasexact,omitempty"`
 }
 
 type env struct {
@@ -141,7 +144,7 @@ func (e *env) readAll(db database.NodeDatabase, root common.Hash, kv []tk.KV, wh
 }
 
 // commit commits tr (which was opened on w at w.root) and compares with the model.
-func (e *env) commit(w *world, tr *trie.Trie, exp *expState, minset []minEntry, checkMin bool) string {
+func (e *env) commit(w *world, tr *trie.Trie, exp *expState, minset []minEntry, checkMin bool, exact ...[]minEntry) string {
 	ref, refRoot := tk.NewRef(exp.Tree, e.pad)
 	if len(ref.SizeMismatch) > 0 {
 		tl.Fatal("MPT!RlpSize mismatch: %v", ref.SizeMismatch)
@@ -197,6 +200,29 @@ func (e *env) commit(w *world, tr *trie.Trie, exp *expState, minset []minEntry, 
 			if (len(set.Origins[p]) > 0) != m.HasPrev {
 				return fmt.Sprintf("node set entry at path %x: has previous value=%v, specification %v", p, len(set.Origins[p]) > 0, m.HasPrev)
 			}
+		}
+	}
+	if len(exact) == 1 {
+		// the mechanism model predicts the node set entry by entry
+		want := map[string]minEntry{}
+		for _, m := range exact[0] {
+			want[pathBytes(m.Path)] = m
+		}
+		n := 0
+		if set != nil {
+			n = len(set.Nodes)
+			for p, x := range set.Nodes {
+				m, ok := want[p]
+				if !ok {
+					return fmt.Sprintf("node set has an entry at path %x (deleted=%v) the mechanism specification does not produce", p, x.IsDeleted())
+				}
+				if m.Del != x.IsDeleted() || m.HasPrev != (len(set.Origins[p]) > 0) {
+					return fmt.Sprintf("node set entry at path %x: deleted=%v hasprev=%v, mechanism specification deleted=%v hasprev=%v", p, x.IsDeleted(), len(set.Origins[p]) > 0, m.Del, m.HasPrev)
+				}
+			}
+		}
+		if n != len(want) {
+			return fmt.Sprintf("node set has %d entries, the mechanism specification produces %d: %v", n, len(want), exact[0])
 		}
 	}
 	w.path.Apply(set)
@@ -429,8 +455,17 @@ func runSim(e *env, in string) {
 				if err := e.applyOps(tr, []op{{a.K, a.V}}); err != nil {
 					d = "error: " + err.Error()
 				}
+			case "get":
+				if _, err := tr.Get(e.key(a.K)); err != nil {
+					d = "Get error: " + err.Error()
+				}
 			case "commit":
-				d = e.commit(w, tr, a.New, a.Minset, true)
+				if a.HasExact {
+					d = e.commit(w, tr, a.New, a.Minset, true, a.Exact)
+					e.sum.Count("commit-exact")
+				} else {
+					d = e.commit(w, tr, a.New, a.Minset, true)
+				}
 				if d == "" {
 					gens++
 					var err error
